@@ -76,6 +76,7 @@ def gen_cases(tier, seed):
         c['chunk_size'] = 2
         c['n_processors'] = 4
         c['marker_class'] = 'complete'
+        c['spelling'] = bool(i % 3 == 2)
         c.pop('flatten', None)
         cases.append(c)
     return cases
@@ -221,8 +222,28 @@ def run_case(spec, work):
                           'mode': str(rng.choice(['kill', 'exit', 'raise'])),
                           'point': klass.split('-')[1], 'mid_after': 1},
                 'mid_target': c14.STAGES['mapping']['mid']}
-    r = mapworld.run_world(w, trace=False, plan=plan, config=cfg)
     counters, viol = {}, []
+    if spec.get('spelling'):
+        # the same locations spelled the way shell concatenation produces
+        # them: a doubled separator or a '/./' segment in front of the name
+        def respell(p, k):
+            if not isinstance(p, str) or not p.startswith('/'):
+                return p
+            head, tail = p.rsplit('/', 1)
+            return head + ('//' if k % 2 == 0 else '/./') + tail
+        k = 0
+        for key in ('query_path', 'extended_result_path', 'csv_result_path',
+                    'hdf5_result_path', 'log_path', 'tmp_dir',
+                    'extended_result_dir'):
+            if cfg.get(key):
+                cfg[key] = respell(cfg[key], k)
+                k += 1
+        cfg['precomputed_stats']['path'] = respell(
+            cfg['precomputed_stats']['path'], 0)
+        cfg['query_markers']['serialized_lookup'] = respell(
+            cfg['query_markers']['serialized_lookup'], 1)
+        counters['runs_with_unnormalised_path_spellings'] = 1
+    r = mapworld.run_world(w, trace=False, plan=plan, config=cfg)
     failed = r['exception'] is not None
     if klass == 'success' and failed:
         sig, last = oracles.exception_signature(r['traceback'],
